@@ -1,4 +1,4 @@
-"""C07 finding (not fixed): Model(direction=<feature name>) stores the VALUES of that feature in
+"""F26 reproducer (C07; repaired in /repo by 53bc608): Model(direction=<feature name>) stores the VALUES of that feature in
 model.best_feat (model.py, _get_starting_labels: `best_feat = feat`), not its name.  When training fails or the
 learned scores are worse, brew's fall-back does `read_data(columns=[best_feat])` with an ndarray and raises
 (typeguard TypeCheckError) instead of handing back that feature's values with its direction.
